@@ -48,7 +48,7 @@ def budget(tier):
 # (type, op): secrets are chosen per type
 INT_OPS = ['lt0', 'sgn', 'eq0', 'lsb', 'mod3', 'mod8', 'floordiv3', 'rshift2', 'abs', 'to_bits', 'izp', 'conv_int',
            'conv_fld', 'mul', 'max0']
-FXP_OPS = ['fmul', 'flt0', 'fdiv', 'frec', 'ftrunc']
+FXP_OPS = ['fmul', 'flt0', 'fdiv', 'frec', 'ftrunc', 'fschur']
 FLD_OPS = ['recip', 'feq0', 'fizp', 'fto_bits']
 
 
@@ -84,6 +84,8 @@ def enumerate_cases(tier):
     for c in cells:
         if only and c['op'] not in only.split(','):
             continue
+        if c['op'] == 'fschur':
+            c = dict(c, n=2 * c['n'])   # the adjacent-pair statistic separates by 0.5 at best: more runs for this cell
         yield dict(c, seed=c['seed'] + 100_000 * base)
 
 
@@ -161,6 +163,13 @@ def make_prog(typ, op, secret):
             z = 1 / a
         elif op == 'ftrunc':
             z = mpc.trunc(a, f=3)
+        elif op == 'fschur':
+            # one truncation over a LIST: the masks of the elements must be independent of each other
+            xs = [a, a + stype(0.25, integral=False), a - stype(1.5, integral=False)] if secret < 0 else \
+                [a, a - stype(0.75, integral=False), a - stype(0.25, integral=False)]
+            u = 2.0 ** -typ[2]   # odd raw factors, so that the low bits of the products depend on the secrets
+            z = mpc.schur_prod(xs, [stype(0.75 + u, integral=False), stype(1.25 + u, integral=False),
+                                    stype(0.5 + 3 * u, integral=False)])
         elif op == 'recip':
             z = 1 / a
         else:
@@ -279,7 +288,7 @@ def run_case(case):
             groups[w][tuple(k for k, _, _ in vw)].append(vw)
     shapes = set(groups[0]) | set(groups[1])
     ncoord = max((len(s) for s in shapes), default=0)
-    ntests = len(shapes) + 3 * sum(len(s) for s in shapes)
+    ntests = len(shapes) + 5 * sum(len(s) for s in shapes)   # 3 marginal + 2 adjacent-pair projections
     ntests = max(ntests, 1)
 
     def e(nn):
@@ -316,6 +325,27 @@ def run_case(case):
                     return Outcome(False, f'coalition view depends on the secret: {what}, projection "{pname}": KS distance '
                                    f'{d:.3f} > threshold {thr:.3f} between secrets {sa} and {sb} over {len(ga)}+{len(gb)} runs '
                                    f'({typ} {op})\ncase={case}', labels=labels, n=runs)
+    # adjacent values of one opening (e.g. a truncation over a list): their masks must be independent -- a mask
+    # reused (or reused shifted by one bit) makes v[j+1] - (v[j] >> s) depend on the secrets alone
+    for s in shapes:
+        ga, gb = groups[0].get(s, []), groups[1].get(s, [])
+        if len(ga) < 60 or len(gb) < 60:
+            continue
+        thr = e(len(ga)) + e(len(gb))
+        for ci in range(len(s) - 1):
+            k0, k1 = s[ci], s[ci + 1]
+            if not (k0[0] == 'o' and k1[0] == 'o' and k0[1:3] == k1[1:3] and k1[3] == k0[3] + 1):
+                continue
+            for sh in (0, 1):
+                xa = [(vw[ci + 1][1] - (vw[ci][1] >> sh)) & 3 for vw in ga]
+                xb = [(vw[ci + 1][1] - (vw[ci][1] >> sh)) & 3 for vw in gb]
+                d = ks(xa, xb)
+                if d > thr:
+                    return Outcome(False, f'coalition view depends on the secret: adjacent values #{k0[3]}, #{k1[3]} opened '
+                                   f'by one output() call at party {k0[1]} (call #{k0[2]}): (v[j+1] - (v[j] >> {sh})) mod 4 '
+                                   f'has KS distance {d:.3f} > threshold {thr:.3f} between secrets {sa} and {sb} '
+                                   f'({typ} {op}): the masks of the two values are not independent\ncase={case}',
+                                   labels=labels, n=runs)
     labels.append(f'coords={ncoord // 10 * 10}+')
     labels.append('worstD=%.2f' % (math.floor(worst[0] * 20) / 20))
     return Outcome(True, labels=labels, nontrivial=opened > 0, n=runs)
